@@ -35,6 +35,8 @@ type Env struct {
 	pkg   *types.Package
 	scope string // non-empty: reading a callee's contract at a call site; its call ghosts are its own
 	isOld bool
+	underBinder int // > 0 while evaluating the body of a quantifier
+	cur   *Env // the environment of the current state (target of now(e) inside old/iter/entry/at)
 	oldBinds map[string]specBinding // bindings to use inside old() (captured variables of a closure callee)
 }
 
@@ -430,7 +432,11 @@ func (env *Env) index(e *Expr) SV {
 			return env.fail("byte index in contract")
 		}
 		k := env.x.elemKey(u.Elem())
-		return SV{T: Select(Select(env.st.heapArr(k, heapSorts[k]), sliceAcc(base.T, 0)), Add(sliceAcc(base.T, 1), idx.T)), Ty: u.Elem()}
+		inner := Select(env.st.heapArr(k, heapSorts[k]), sliceAcc(base.T, 0))
+		if env.underBinder > 0 {
+			return SV{T: sgetTerm(env.st, inner, sliceAcc(base.T, 1), idx.T), Ty: u.Elem()}
+		}
+		return SV{T: Select(inner, Add(sliceAcc(base.T, 1), idx.T)), Ty: u.Elem()}
 	case *types.Array:
 		return SV{T: Select(base.T, idx.T), Ty: u.Elem()}
 	case *types.Map:
@@ -446,6 +452,9 @@ func (env *Env) inOld() *Env {
 		n.st = env.old
 	}
 	n.isOld = true
+	if n.cur == nil {
+		n.cur = env
+	}
 	if env.oldBinds != nil {
 		n.binds = env.oldBinds
 	}
@@ -465,6 +474,16 @@ func (env *Env) call(e *Expr) SV {
 	bt := types.Type(types.Typ[types.Bool])
 	it := types.Type(types.Typ[types.Int])
 	switch e.Name {
+	case "now":
+		// now(e): e in the current state, even inside old()/iter()/entry()/at()
+		if env.cur != nil {
+			r := env.cur.eval(e.Args[0])
+			if env.cur.err != nil {
+				env.err = env.cur.err
+			}
+			return r
+		}
+		return env.eval(e.Args[0])
 	case "in":
 		// in(p): the entry value of parameter p (needed where a local shadows the parameter)
 		if len(e.Args) != 1 || e.Args[0].Kind != "ident" {
@@ -477,6 +496,41 @@ func (env *Env) call(e *Expr) SV {
 			return SV{T: x.term(st, pv, x.paramType(e.Args[0].Name)), Ty: x.paramType(e.Args[0].Name)}
 		}
 		return env.fail("no parameter %s", e.Args[0].Name)
+	case "deref":
+		// deref(p): the value a pointer refers to
+		a := arg(0)
+		if a.Ty == nil {
+			return env.fail("deref of untyped value")
+		}
+		pt, ok := a.Ty.Underlying().(*types.Pointer)
+		if !ok {
+			return env.fail("deref of non-pointer %s", a.Ty)
+		}
+		et := pt.Elem()
+		if _, isStruct := et.Underlying().(*types.Struct); isStruct {
+			return SV{T: x.loadStructRef(st, a.T, et), Ty: et}
+		}
+		k := regHeap("M$"+sortNameOfType(et), ArrSort(SInt, sortOfStatic(et)))
+		return SV{T: Select(st.heapArr(k, heapSorts[k]), a.T), Ty: et}
+	case "iter":
+		// iter(e): the value of e at the head of the current loop iteration
+		if x.curLoop == nil || st.iterHead == nil || st.iterHead[x.curLoop] == nil {
+			return env.fail("iter() outside a loop ensures clause")
+		}
+		o := *env
+		o.st = st.iterHead[x.curLoop]
+		if o.cur == nil {
+			o.cur = env
+		}
+		n0 := len(o.st.assume)
+		r := o.eval(e.Args[0])
+		if o.err != nil {
+			env.err = o.err
+		}
+		if len(o.st.assume) > n0 {
+			env.st.add(o.st.assume[n0:]...)
+		}
+		return r
 	case "old":
 		o := env.inOld()
 		// parameters keep their entry values in old(); locals are not available
@@ -582,6 +636,80 @@ func (env *Env) call(e *Expr) SV {
 		return SV{T: Select(st.heapArr(ghRecvd, heapSorts[ghRecvd]), arg(0).T), Ty: it}
 	case "sends":
 		return SV{T: st.ghostInt("#sends"), Ty: it}
+	case "emptyheap":
+		rv := Var("bv!r", SInt)
+		return SV{T: Forall([]*Term{rv}, Not(Select(st.heapArr(ghInHeap, heapSorts[ghInHeap]), rv))), Ty: bt}
+	case "pqwf":
+		return SV{T: x.pqWF(st, arg(0).T), Ty: bt}
+	case "inheap":
+		return SV{T: Select(st.heapArr(ghInHeap, heapSorts[ghInHeap]), arg(0).T), Ty: bt}
+	case "hord":
+		return SV{T: st.ghostBool(ghHord), Ty: bt}
+	case "hbound":
+		return SV{T: st.ghostInt(ghHbound), Ty: it}
+	case "entry", "at":
+		// entry(N, e): e at the first arrival at loop N (before its havoc);
+		// at(N, e): e at the head of the current iteration of loop N
+		if len(e.Args) != 2 || e.Args[0].Kind != "int" {
+			return env.fail("%s(N, e)", e.Name)
+		}
+		n, _ := strconv.Atoi(e.Args[0].Lit)
+		var snap *State
+		for l, s2 := range st.iterHead {
+			if l.Ordinal == n && e.Name == "at" {
+				snap = s2
+			}
+		}
+		for l, s2 := range st.loopEntry {
+			if l.Ordinal == n && e.Name == "entry" {
+				snap = s2
+			}
+		}
+		if snap == nil {
+			return env.fail("%s(%d, ...): loop not entered on this path", e.Name, n)
+		}
+		o := *env
+		o.st = snap
+		if o.cur == nil {
+			o.cur = env
+		}
+		n0 := len(o.st.assume)
+		r := o.eval(e.Args[1])
+		if o.err != nil {
+			env.err = o.err
+		}
+		if len(o.st.assume) > n0 {
+			env.st.add(o.st.assume[n0:]...)
+		}
+		return r
+	case "has":
+		// has(m, k): key k is present in map m
+		m, k := arg(0), arg(1)
+		if m.Ty == nil {
+			return env.fail("has needs a typed map")
+		}
+		if _, ok := m.Ty.Underlying().(*types.Map); !ok {
+			return env.fail("has needs a map")
+		}
+		dk, _ := mapKeys(m.Ty)
+		return SV{T: And(Neq(m.T, Zero), Select(Select(st.heapArr(dk, heapSorts[dk]), m.T), k.T)), Ty: bt}
+	case "pos":
+		// pos(x): an uninterpreted index function; forall i: pos(s[i]) == i states that the
+		// elements of s are pairwise distinct with a single-trigger quantifier
+		theU.DeclFunc("pos!idx", SInt, SInt)
+		return SV{T: App("pos!idx", SInt, arg(0).T), Ty: it}
+	case "lastRecvd":
+		a := arg(0)
+		s := SInt
+		var et types.Type
+		if a.Ty != nil {
+			if c, ok := a.Ty.Underlying().(*types.Chan); ok {
+				s = sortOfStatic(c.Elem())
+				et = c.Elem()
+			}
+		}
+		lk := lastRecvKey(s)
+		return SV{T: Select(st.heapArr(lk, heapSorts[lk]), a.T), Ty: et}
 	case "lastSent":
 		a := arg(0)
 		s := SInt
@@ -672,7 +800,7 @@ func (env *Env) call(e *Expr) SV {
 		}
 		lo, hi := arg(1), arg(2)
 		if lv, ok1 := lo.T.IntVal(); ok1 {
-			if hv, ok2 := hi.T.IntVal(); ok2 && lv.IsInt64() && hv.IsInt64() && hv.Int64()-lv.Int64() <= 16 {
+			if hv, ok2 := hi.T.IntVal(); ok2 && lv.IsInt64() && hv.IsInt64() && new(big.Int).Sub(hv, lv).Cmp(big.NewInt(16)) <= 0 {
 				// literal bounds: expand
 				var parts []*Term
 				saved, had := env.binds[e.Args[0].Name]
@@ -694,7 +822,9 @@ func (env *Env) call(e *Expr) SV {
 		bv := Var("bv!"+e.Args[0].Name, SInt)
 		saved, had := env.binds[e.Args[0].Name]
 		env.binds[e.Args[0].Name] = specBinding{Val{T: bv}, it}
+		env.underBinder++
 		body := env.eval(e.Args[3])
+		env.underBinder--
 		if had {
 			env.binds[e.Args[0].Name] = saved
 		} else {
@@ -745,6 +875,12 @@ func (env *Env) call(e *Expr) SV {
 }
 
 func (env *Env) lookupType(name string) types.Type {
+	if strings.HasPrefix(name, "[]") {
+		if et := env.lookupType(name[2:]); et != nil {
+			return types.NewSlice(et)
+		}
+		return nil
+	}
 	ptr := false
 	if strings.HasPrefix(name, "*") {
 		ptr = true
